@@ -751,6 +751,15 @@ def report(ctx, plan, o, case, real, impl, m, mo_show, label):
         ctx.disagree(KEY_META, f"{o.ident}: {combo}: implementation {impl}, expected {mo_show}", _replay(case), impl=impl, model=mo_show,
                      spec_violated=True, site="GalliaBaseModel (pydantic >= 2.12 field collection)")
         return
+    # collateral of the same defect: the parse fails on *another* option of the command that lost its metadata
+    # (e.g. a positional that turned into a required --option)
+    if real["r"] == "exit":
+        named = {w.lstrip("-").replace("-", "_") for e in real["errs"] for w in e[1].replace(",", " ").split()}
+        culprit = next((x for x in plan.visible if x.name in named and x.name != o.name and metadata_lost(x)), None)
+        if culprit is not None:
+            ctx.disagree(KEY_META, f"{culprit.ident}: declared metadata lost; every run of the command fails: {impl}", _replay(case), impl=impl,
+                         model=mo_show, spec_violated=True, site="GalliaBaseModel (pydantic >= 2.12 field collection)")
+            return
     # which provider's value did the implementation end up with?
     got = "?"
     violated = True
